@@ -22,6 +22,11 @@ FoldOk == LET ed == TLCEval(Ev.edits)
                 /\ Ev.recovered.log = st.log /\ Ev.recovered.lastseq = st.lastseq
                 /\ Ev.recovered.nextfile > st.nextfile
 \* (FoldOk = TRUE): evaluated as a value; as an action conjunct TLC would branch on every disjunction inside it
-Next == l <= Len(T) /\ Ev.e = "manifest" /\ (FoldOk = TRUE) /\ l' = l + 1
+\* encoding round trips on boundary values (numbers are carried as decimal strings: they exceed TLC's integers):
+\*   what lcdb exported, decoded by the independent decoder, is the edit that was built; importing those bytes and
+\*   exporting again gives the same bytes; bytes from the independent encoder survive import + export unchanged
+CodecOk == Ev.got = Ev.want /\ Ev.reimport_ok = 1 /\ Ev.reexport = Ev.bytes /\ Ev.foreign_ok = 1 /\ Ev.foreign_back = Ev.foreign
+Next == \/ l <= Len(T) /\ Ev.e = "manifest" /\ (FoldOk = TRUE) /\ l' = l + 1
+        \/ l <= Len(T) /\ Ev.e = "codec" /\ (CodecOk = TRUE) /\ l' = l + 1
 Spec == Init /\ [][Next]_l
 =============================================================================
